@@ -559,3 +559,11 @@ func (s *setSubj[T]) DoHostile(op Op) {
 		}
 	}
 }
+
+func (s *setSubj[T]) EncodeModel() []byte {
+	if s.m == nil {
+		return []byte("[]")
+	}
+	return mustJSON(s.modelOrdered())
+}
+func (s *setSubj[T]) AdoptModel(from Subject) { s.m = slices.Clone(from.(*setSubj[T]).m) }
